@@ -23,6 +23,30 @@ import (
 
 // ---------------------------------------------------------------- implementation side
 
+// c04SS is a filtering.SafeSearch with an identity.
+type c04SS struct{ id int }
+
+func (c04SS) CheckHost(_ context.Context, _ string, _ uint16) (res filtering.Result, err error) {
+	return filtering.Result{}, nil
+}
+
+func (c04SS) Update(_ context.Context, _ filtering.SafeSearchConfig) (err error) { return nil }
+
+// c04TagSets are the values of Persistent.Tags (sorted, all allowed); the
+// index is what travels on the line.
+var c04TagSets = [][]string{nil, {"device_pc"}, {"device_tv", "user_child"}, {"os_linux", "user_admin", "user_regular"}}
+
+func c04TagsNum(tags []string) string {
+	j := strings.Join(tags, ",")
+	for i, ts := range c04TagSets {
+		if strings.Join(ts, ",") == j {
+			return vutil.Itoa(i)
+		}
+	}
+
+	return "?" + vutil.Hex(j)
+}
+
 // c04DHCP is the DHCP server the storage asks for the MAC of a lease.
 type c04DHCP struct{ macs map[netip.Addr]net.HardwareAddr }
 
@@ -102,8 +126,12 @@ func c04Client(f []string, i int) (p *Persistent, next int) {
 		i++
 	}
 	i++
+	p.Tags = append([]string(nil), c04TagSets[vutil.Atoi(f[i+9])]...)
 	if vutil.UnB(f[i]) {
-		p.Tags = []string{"no_such_tag"}
+		p.Tags = append(p.Tags, "no_such_tag")
+	}
+	if id := vutil.Atoi(f[i+8]); id != 0 {
+		p.SafeSearch = &c04SS{id: id}
 	}
 	p.UseOwnSettings = vutil.UnB(f[i+1])
 	p.FilteringEnabled = vutil.UnB(f[i+2])
@@ -116,7 +144,7 @@ func c04Client(f []string, i int) (p *Persistent, next int) {
 		IDs:      []string{"svc" + f[i+7]},
 	}
 
-	return p, i + 8
+	return p, i + 10
 }
 
 func c04ErrKind(err error) []string {
@@ -166,11 +194,35 @@ func c04Guard(f func() string) (s string) {
 func c04Global() *filtering.Settings {
 	return &filtering.Settings{
 		BlockedServices:     &filtering.BlockedServices{Schedule: schedule.EmptyWeekly(), IDs: []string{"svc0"}},
+		ProtectionEnabled:   true,
 		FilteringEnabled:    true,
 		SafeSearchEnabled:   false,
 		SafeBrowsingEnabled: true,
 		ParentalEnabled:     false,
 	}
+}
+
+// c04ShowSettings prints EVERY field of filtering.Settings.
+func c04ShowSettings(setts *filtering.Settings) string {
+	svc := "?"
+	if setts.BlockedServices != nil && len(setts.BlockedServices.IDs) == 1 {
+		svc = strings.TrimPrefix(setts.BlockedServices.IDs[0], "svc")
+	}
+	sso := "0"
+	switch v := setts.ClientSafeSearch.(type) {
+	case nil:
+	case *c04SS:
+		sso = vutil.Itoa(v.id)
+	default:
+		sso = "?"
+	}
+	untouched := !setts.ClientIP.IsValid() && setts.ServicesRules == nil
+
+	return strings.Join([]string{
+		"S", vutil.Hex(setts.ClientName), c04TagsNum(setts.ClientTags), svc, vutil.B(setts.FilteringEnabled),
+		vutil.B(setts.SafeSearchEnabled), sso, vutil.B(setts.SafeBrowsingEnabled), vutil.B(setts.ParentalEnabled),
+		vutil.B(setts.ProtectionEnabled), vutil.B(untouched),
+	}, ":")
 }
 
 func c04Observe(c *c04State) (out []string) {
@@ -189,14 +241,8 @@ func c04Observe(c *c04State) (out []string) {
 			case "a":
 				setts := c04Global()
 				s.ApplyClientFiltering(pr.s, pr.ip, setts)
-				svc := "?"
-				if setts.BlockedServices != nil && len(setts.BlockedServices.IDs) == 1 {
-					svc = strings.TrimPrefix(setts.BlockedServices.IDs[0], "svc")
-				}
 
-				return "S:" + vutil.Hex(setts.ClientName) + ":" + svc + ":" + vutil.B(setts.FilteringEnabled) + ":" +
-					vutil.B(setts.SafeSearchEnabled) + ":" + vutil.B(setts.SafeBrowsingEnabled) + ":" +
-					vutil.B(setts.ParentalEnabled)
+				return c04ShowSettings(setts)
 			case "f":
 				return c04Show(s.Find(pr.s))
 			default:
@@ -345,6 +391,8 @@ type c04GenClient struct {
 	cids     []string
 	flags    [7]bool
 	svc      int
+	ssObj    int
+	tags     int
 }
 
 func (c *c04GenClient) fields() (f []string) {
@@ -368,7 +416,7 @@ func (c *c04GenClient) fields() (f []string) {
 		f = append(f, vutil.B(b))
 	}
 
-	return append(f, vutil.Itoa(c.svc))
+	return append(f, vutil.Itoa(c.svc), vutil.Itoa(c.ssObj), vutil.Itoa(c.tags))
 }
 
 func c04Gen(r *rand.Rand, emit vutil.Emit) {
@@ -487,6 +535,11 @@ func c04Gen(r *rand.Rand, emit vutil.Emit) {
 			for k := 1; k < 7; k++ {
 				c.flags[k] = r.IntN(2) == 0
 			}
+			// an own safe-search object and tags, independent of every switch
+			if r.IntN(3) > 0 {
+				c.ssObj = ver
+			}
+			c.tags = r.IntN(len(c04TagSets))
 
 			return c
 		}
